@@ -180,16 +180,24 @@ func checkC15(c C15Case, st *stats.Collector) error {
 	scheds := []struct {
 		name string
 		src  faultio.Source
+		at   bool // seekable sources also offer io.ReaderAt
 	}{
-		{"1-byte reads", faultio.Source{Sizes: []int{1}, FailAt: -1}},
-		{"halving reads", faultio.Source{Halving: true, FailAt: -1}},
-		{"generated read sizes", faultio.Source{Sizes: c.Sizes, FailAt: -1}},
-		{"data together with EOF", faultio.Source{EOFWithData: true, FailAt: -1}},
-		{"generated sizes + data with EOF", faultio.Source{Sizes: c.Sizes, EOFWithData: true, FailAt: -1}},
+		{name: "positioned reads on offer (ReadAt returns the final bytes together with EOF)", src: faultio.Source{EOFWithData: true, FailAt: -1}, at: true},
+		{name: "positioned reads on offer, generated read sizes", src: faultio.Source{Sizes: c.Sizes, FailAt: -1}, at: true},
+		{name: "1-byte reads", src: faultio.Source{Sizes: []int{1}, FailAt: -1}},
+		{name: "halving reads", src: faultio.Source{Halving: true, FailAt: -1}},
+		{name: "generated read sizes", src: faultio.Source{Sizes: c.Sizes, FailAt: -1}},
+		{name: "data together with EOF", src: faultio.Source{EOFWithData: true, FailAt: -1}},
+		{name: "generated sizes + data with EOF", src: faultio.Source{Sizes: c.Sizes, EOFWithData: true, FailAt: -1}},
 	}
 	for _, sc := range scheds {
 		for i, r := range rs {
 			src, _ := mkSource(file, r.seekable, sc.src)
+			if sc.at && r.seekable {
+				a := &faultio.AtSeekSource{SeekSource: faultio.SeekSource{Source: sc.src}}
+				a.Data = file
+				src = a
+			}
 			got := r.run(src)
 			evals++
 			if got.panic_ != "" {
